@@ -1072,6 +1072,9 @@ func (ex *Exec) loop(st *State, lp *loopParts, k func(*State)) {
 		}
 		env := ex.specEnvFor(st, fr.fi)
 		for _, inv := range spec.Invs {
+			if !ex.propActive(inv.Props) {
+				continue
+			}
 			if asGoal {
 				ex.goalIx = nil
 				ts = append(ts, env.goal(inv.E))
